@@ -921,6 +921,11 @@ class VM:
                 prototype.set("constructor", js_func)
                 js_func._prototype = prototype
 
+                # An arrow function has no `this` of its own: it keeps the `this` of the
+                # scope that creates it, whatever the later call form is
+                if compiled_func.is_arrow:
+                    js_func._bound_this = frame.this_value
+
                 # Capture closure cells for free variables
                 if compiled_func.free_vars:
                     closure_cells = []
@@ -2581,12 +2586,16 @@ class VM:
         new_target: JSValue = None,
     ) -> None:
         """Invoke a JavaScript function."""
-        # Handle bound functions
-        if hasattr(func, "_bound_this"):
-            this_val = func._bound_this
-        if hasattr(func, "_bound_args"):
-            args = list(func._bound_args) + list(args)
-        if hasattr(func, "_original_func"):
+        # Handle bound functions: walk from the outermost binding to the target so that
+        # the innermost `this` (first bind, or the lexical this of an arrow) wins and
+        # bound arguments accumulate in binding order
+        while True:
+            if hasattr(func, "_bound_this"):
+                this_val = func._bound_this
+            if hasattr(func, "_bound_args"):
+                args = list(func._bound_args) + list(args)
+            if not hasattr(func, "_original_func"):
+                break
             func = func._original_func
 
         compiled = getattr(func, "_compiled", None)
